@@ -9,6 +9,7 @@ from vmon import oracle as orc
 from vmon.checks import tokcommon as tc
 from vmon.checks.common import obs, fail
 
+TRACK_CHANNELS = "piece"   # worker: every fourth case moves each track's notes to another channel
 PROP = "C19"
 MONITORS = ["tokenise", "theory"]
 ALSO = ()
